@@ -62,7 +62,8 @@ var (
 
 // typedNilToks: store tokens that stand for typed nil values (a nil pointer / a nil map boxed in an `any`): values like any
 // other — what was stored is what comes back, type included
-var typedNilToks = map[int]any{37: (*int)(nil), 38: map[string]any(nil), 39: (*pair)(nil)}
+var typedNilToks = map[int]any{37: (*int)(nil), 38: map[string]any(nil), 39: (*pair)(nil),
+	35: []int{1, 2}, 36: []string{"a", "b"}} // … and two TYPED slices (told apart from a converted []any copy by identity)
 
 func init() {
 	for n := 1; n <= storeMaxTok; n++ {
@@ -314,6 +315,19 @@ func (r *storeRun) do(o sop) (resp string) {
 		r.st.Merge(r.snaps[o.a])
 		return "u"
 	case "h":
+		// the typed getters are READS: calling them (results discarded, panics are the value family's business) leaves
+		// what Get / GetAll return exactly as it was
+		func() {
+			defer func() { _ = recover() }()
+			k := r.key(o.a)
+			r.st.GetString(k)
+			r.st.GetInt(k)
+			r.st.GetFloat64(k)
+			r.st.GetBool(k)
+			r.st.GetSlice(k)
+			r.st.GetMap(k)
+			r.st.GetSliceOr(k, nil)
+		}()
 		return "b" + b01(r.st.Has(r.key(o.a)))
 	case "d":
 		r.st.Delete(r.key(o.a))
@@ -641,6 +655,7 @@ func genC14(r *rng, thorough bool, add func(StoreScenario)) {
 		{"s2:4", "h3", "g3", "l", "s3:20", "g3", "c", "h3"},
 		{"ml0:4,2:12", "h1", "g1", "h3", "g3", "k", "a", "rs0"},
 		{"s0:37", "g0", "h0", "a", "rs0", "s1:38", "g1", "ml2:39", "g2", "l", "k", "ms0", "g0", "d0", "g0"},
+		{"s0:36", "h0", "g0", "a", "rs0", "s1:35", "h1", "g1", "ml2:36", "h2", "g2", "a", "rs1"},
 	} {
 		add(StoreScenario{Keys: []string{"cfg", "cfg.v", "", "."}, Ops: f})
 	}
